@@ -114,9 +114,14 @@ class FindIdentifiers(_ast_util.NodeVisitor):
 
     def visit_ListComp(self, node):
         if self.in_function:
+            # the loop variables first, so that their use in the element
+            # and in the conditions is not taken for an undeclared name
             for comp in node.generators:
                 self.visit(comp.target)
                 self.visit(comp.iter)
+                for if_ in comp.ifs:
+                    self.visit(if_)
+            self.visit(node.elt)
         else:
             self.generic_visit(node)
 
@@ -127,6 +132,10 @@ class FindIdentifiers(_ast_util.NodeVisitor):
             for comp in node.generators:
                 self.visit(comp.target)
                 self.visit(comp.iter)
+                for if_ in comp.ifs:
+                    self.visit(if_)
+            self.visit(node.key)
+            self.visit(node.value)
         else:
             self.generic_visit(node)
 
@@ -144,13 +153,28 @@ class FindIdentifiers(_ast_util.NodeVisitor):
         # argument names in each function header so they arent
         # counted as "undeclared"
 
+        args = node.args
+
+        # defaults are evaluated in the enclosing scope
+        for default in args.defaults + args.kw_defaults:
+            if default is not None:
+                self.visit(default)
+
         inf = self.in_function
         self.in_function = True
 
         local_ident_stack = self.local_ident_stack
-        self.local_ident_stack = local_ident_stack.union(
-            [arg_id(arg) for arg in self._expand_tuples(node.args.args)]
-        )
+        argnames = [
+            arg_id(arg)
+            for arg in self._expand_tuples(
+                args.posonlyargs + args.args + args.kwonlyargs
+            )
+        ]
+        if args.vararg:
+            argnames.append(arg_id(args.vararg))
+        if args.kwarg:
+            argnames.append(arg_id(args.kwarg))
+        self.local_ident_stack = local_ident_stack.union(argnames)
         if islambda:
             self.visit(node.body)
         else:
